@@ -6,11 +6,13 @@ use serde::{Deserialize, Serialize};
 use vengine::gen::{gauss, idx, SplitMix};
 use vengine::Tier;
 
-#[derive(Debug, Clone, Copy, PartialEq, Eq, Serialize, Deserialize)]
+#[derive(Debug, Clone, Copy, PartialEq, Serialize, Deserialize)]
 pub enum Metric {
     L2,
     L1,
     LInf,
+    /// Minkowski distance `LpDist(p)`, p >= 1 (no reduced form: rdistance == distance)
+    Lp(f64),
 }
 
 #[derive(Debug, Clone, Copy, PartialEq, Eq, Serialize, Deserialize)]
@@ -191,7 +193,20 @@ pub fn data_strategy(nmax: usize) -> impl Strategy<Value = Data> {
 }
 
 pub fn metric_strategy() -> impl Strategy<Value = Metric> {
-    prop_oneof![3 => Just(Metric::L2), 2 => Just(Metric::L1), 1 => Just(Metric::LInf)]
+    prop_oneof![
+        6 => Just(Metric::L2),
+        4 => Just(Metric::L1),
+        2 => Just(Metric::LInf),
+        // LpDist: odd whole, even whole and fractional exponents
+        1 => Just(Metric::Lp(1.0)),
+        1 => Just(Metric::Lp(3.0)),
+        1 => Just(Metric::Lp(5.0)),
+        1 => Just(Metric::Lp(2.0)),
+        1 => Just(Metric::Lp(4.0)),
+        1 => Just(Metric::Lp(1.5)),
+        1 => Just(Metric::Lp(2.5)),
+        1 => Just(Metric::Lp(3.3)),
+    ]
 }
 
 pub fn tol_strategy() -> impl Strategy<Value = Tol> {
@@ -366,10 +381,37 @@ pub fn para_box_case(_tier: Tier) -> impl Strategy<Value = Case> {
         })
 }
 
+/// Row counts around plausible internal block / cut-off constants of a blocked or chunked
+/// implementation (64..1024-row blocks, a "large input" cut-off at 8 blocks of 256 = 2048, ...):
+/// exact multiples, multiples +-1, a random remainder, the cut-off and its neighbours, and the
+/// previous fixed sizes.
+pub fn large_n(tier: Tier) -> impl Strategy<Value = usize> {
+    let old = tier.pick(600usize, 2000usize);
+    let block = prop_oneof![Just(64usize), Just(128usize), Just(256usize), Just(512usize), Just(1024usize)];
+    prop_oneof![
+        1 => Just(old),
+        1 => Just(2047usize),
+        1 => Just(2048usize),
+        1 => Just(2049usize),
+        3 => 2050usize..=4200,
+        // multiples of 256 from 2048 to 4096, and +-1
+        2 => (8usize..=16, 0usize..3).prop_map(|(b, d)| b * 256 + d - 1),
+        // any block size: m*B + r, r in {-1, 0, +1, random}
+        4 => (block, 1000usize..=4200, 0u8..4, any::<u16>()).prop_map(|(bl, base, mode, r)| {
+            let m = (base / bl).max(1);
+            match mode {
+                0 => m * bl - 1,
+                1 => m * bl,
+                2 => m * bl + 1,
+                _ => m * bl + 1 + idx(r, bl - 1),
+            }
+        }),
+    ]
+}
+
 pub fn large_case(tier: Tier) -> impl Strategy<Value = LargeCase> {
-    let n = tier.pick(600usize, 2000usize);
-    (1usize..=4, 1usize..=6, any::<bool>(), metric_strategy(), 0u8..3, any::<u64>(), any::<u64>(), 1usize..=2).prop_map(
-        move |(p, k, f32_, metric, init_kind, data_seed, seed, n_runs)| LargeCase {
+    (large_n(tier), 1usize..=3, 1usize..=4, any::<bool>(), metric_strategy(), 0u8..3, any::<u64>(), any::<u64>(), 1usize..=2).prop_map(
+        move |(n, p, k, f32_, metric, init_kind, data_seed, seed, n_runs)| LargeCase {
             n,
             p,
             k,
